@@ -233,11 +233,13 @@ class AdaptiveBalance(AffineBalance):
         elif mode == "affine":
             balance = AffineBalance()
         balance.find_balance(swatches_src_prebalanced, swatches_dst)
-        self.balance_scaling = balance.balance_scaling @ self.balance_scaling
+        # Compose with the previous balance, following the row-vector convention of
+        # apply_balance: (x @ A_old + b_old) @ A_new + b_new
+        self.balance_scaling = self.balance_scaling @ balance.balance_scaling
+        self.balance_translation = self.balance_translation @ balance.balance_scaling
         if mode == "affine":
             self.balance_translation = (
-                balance.balance_scaling @ self.balance_translation
-                + balance.balance_translation
+                self.balance_translation + balance.balance_translation
             )
 
 
